@@ -108,8 +108,42 @@ def _after_load_oracle(c):
     return []
 
 
+def _gui_oracle(c):
+    """the accounting is that of the FETCHES: driving the simulation as the web GUI does — every getter read after every
+    step — must end with the same instruction-cache counters and the same cycle count as plain stepping"""
+    import zlib
+    new = next((l for l in c.lines if l.startswith("sim.new")), None)
+    if c.suite != "sim-icache" or new is None or new.split()[4] == "-" or c.meta.get("long") or zlib.crc32("\n".join(c.lines[:3]).encode()) % 3:
+        return []
+    res = []
+    for gui in (False, True):
+        im = implmod.Impl()
+        for l in c.lines:
+            if l.split()[0] in ("sim.new", "sim.prog", "sim.load", "sim.reg", "sim.poke", "sim.pc"):
+                im.run(l)
+                if l.startswith("sim.prog") or l.startswith("sim.load"):
+                    if gui:
+                        im.sim_views((1 << 13) - 1)
+                    if sum(1 for x in c.lines if x.startswith("sim.prog") or x.startswith("sim.load")) > 1:
+                        break          # first program only
+        k = 0
+        try:
+            while not im.sim.is_done() and k < 400:
+                im.sim.step()
+                k += 1
+                if gui:
+                    im.sim_views((1 << 13) - 1)
+        except Exception:
+            return []
+        st = im.sim.get_instruction_cache_stats()
+        res.append((st["hits"], st["accesses"], im.sim.state.performance_metrics.cycles, k))
+    if res[0] != res[1]:
+        return [Failure("oracle", PROP, f"(hits, accesses, cycles, steps) = {res[0]} when stepping, {res[1]} when every getter is read after every step: the instruction-cache accounting is not that of the fetches", "icache:getter-changes-accounting")]
+    return []
+
+
 def oracle(c):
-    f_ = _after_load_oracle(c)
+    f_ = _after_load_oracle(c) or _gui_oracle(c)
     if f_:
         return f_
     if c.suite == "sim-icache-failed-load":
@@ -220,5 +254,5 @@ _cases_plain = cases
 def cases(rng, tier):
     for c in _cases_plain(rng, tier):
         if c.lines and c.lines[0].startswith("sim.new"):
-            c.lines = [x for l in c.lines for x in ((l, "sim.istats") if l == "sim.snap" else (l,))]
+            c.lines = [x for l in c.lines for x in ((l, "sim.istats", "sim.icachetable") if l == "sim.snap" else (l,))]
         yield c
